@@ -40,6 +40,10 @@ def replay(case):
     import random
     import ahb
     ahb.configure()
+    E._KM.clear(); E._KM_INV.clear()
+    for k, v in (case.get("keymap") or {}).items():
+        E._KM[int(k)] = v
+        E._KM_INV[v] = int(k)
     asg = {int(k): v for k, v in case["asg"].items()}
     acc = E.Acc()
     got = asyncio.run(E.eval_real(case["expr"], asg))
